@@ -5,7 +5,8 @@
    Model/RemoteSpec.v (the specifications). *)
 From Oras Require Import Base.Prelude Base.Regex Generated.GC20 Generated.GC13 Model.Reference
   Model.Registry Model.RemoteClient Model.RemoteSpec
-  Model.Location Proofs.Reference Proofs.RemoteClient Proofs.RemoteSeek Proofs.RemoteRefine Proofs.Location Proofs.RemotePaged.
+  Model.Location Proofs.Reference Proofs.RemoteClient Proofs.RemoteSeek Proofs.RemoteRefine Proofs.Location Proofs.RemotePaged
+  Model.RefOps Proofs.RefURL Proofs.RemoteURL.
 
 (* ------------------------------------------------------------------ *)
 (* Refinement: the client run against the registry model behaves as the content store
@@ -28,7 +29,8 @@ From Oras Require Import Base.Prelude Base.Regex Generated.GC20 Generated.GC13 M
    statement is false without that last hypothesis. *)
 Theorem C13_refines_store_partial :
   forall (H : str -> str) (parse_mt : str -> option str) (subject_of : str -> option (option desc))
-         (main other : str) (user_mts : list str) (limit : N) (p : profile),
+         (main other : str) (user_mts : list str) (limit : N) (skip_gc : bool)
+         (index_of : str -> option (list desc)) (p : profile),
     str_eqb main other = false ->
     parse_mt ct_octet = Some ct_octet ->
     (forall c, valid_digest (H c) = true) ->
@@ -36,7 +38,7 @@ Theorem C13_refines_store_partial :
       (forall d c, lookup d other_blobs = Some c -> d = H c) ->
       rst_ok p rst ->
       wf_hist H parse_mt subject_of main user_mts limit p (mkStore [] [] [] other_blobs) os ->
-      run_history H parse_mt subject_of main other user_mts limit p None other_blobs rst os = (g, out) ->
+      run_history H parse_mt subject_of main other user_mts limit skip_gc index_of p None other_blobs rst os = (g, out) ->
       map snd out = snd (spec_run H subject_of main user_mts (mkStore [] [] [] other_blobs) os) /\
       store_of g = fst (spec_run H subject_of main user_mts (mkStore [] [] [] other_blobs) os).
 Proof. exact run_history_refines. Qed.
@@ -45,7 +47,7 @@ Print Assumptions C13_refines_store_partial.
 (* without the digest-header hypothesis the full statement is false (finding
    head-tag-no-digest-header): PushReference under a tag succeeds, Resolve of the tag fails *)
 Theorem C13_refines_store_refuted :
-  map snd (snd (run_history w_H (fun s => Some s) (fun _ => Some None) (b "app") (b "src") [] w_limit
+  map snd (snd (run_history w_H (fun s => Some s) (fun _ => Some None) (b "app") (b "src") [] w_limit false w_index_of
                             w_profile None [] RSUnknown w_ops))
   = [ROk; RErr EOther] /\
   snd (spec_run w_H (fun _ => Some None) (b "app") [] (mkStore [] [] [] []) w_ops) = [ROk; RDesc w_desc].
@@ -59,10 +61,11 @@ Print Assumptions C13_refines_store_refuted.
    C13_refines_store_partial -- [wf_op] puts no other condition on the profile. *)
 Theorem C13_resolve_tag_needs_header :
   forall (H : str -> str) (parse_mt : str -> option str) (subject_of : str -> option (option desc))
-         (main other : str) (user_mts : list str) (limit : N) (p : profile) g n rst rs rf d mt c,
+         (main other : str) (user_mts : list str) (limit : N) (skip_gc : bool)
+         (index_of : str -> option (list desc)) (p : profile) g n rst rs rf d mt c,
     resolve_ref main rs = Some rf -> valid_digest rf = false ->
     man_lookup (store_of g) rf = Some (d, (mt, c)) -> p_dighdr p = false ->
-    snd (run_op H parse_mt subject_of main other user_mts limit (reg * N)
+    snd (run_op H parse_mt subject_of main other user_mts limit skip_gc index_of (reg * N)
                 (cexch H subject_of main other p None) (g, n) rst (OResolve rs)) = RErr EOther /\
     snd (spec_op H subject_of main user_mts (store_of g) (OResolve rs)) = RDesc (mkDesc mt d (len c)).
 Proof. exact resolve_tag_needs_header. Qed.
@@ -70,10 +73,11 @@ Print Assumptions C13_resolve_tag_needs_header.
 
 Theorem C13_fetchref_tag_needs_header :
   forall (H : str -> str) (parse_mt : str -> option str) (subject_of : str -> option (option desc))
-         (main other : str) (user_mts : list str) (limit : N) (p : profile) g n rst rs rf d mt c,
+         (main other : str) (user_mts : list str) (limit : N) (skip_gc : bool)
+         (index_of : str -> option (list desc)) (p : profile) g n rst rs rf d mt c,
     resolve_ref main rs = Some rf -> valid_digest rf = false ->
     man_lookup (store_of g) rf = Some (d, (mt, c)) -> p_dighdr p = false -> p_clen p = false ->
-    snd (run_op H parse_mt subject_of main other user_mts limit (reg * N)
+    snd (run_op H parse_mt subject_of main other user_mts limit skip_gc index_of (reg * N)
                 (cexch H subject_of main other p None) (g, n) rst (OFetchRef rs)) = RErr EOther /\
     snd (spec_op H subject_of main user_mts (store_of g) (OFetchRef rs)) = RDescBytes (mkDesc mt d (len c)) c.
 Proof. exact fetchref_tag_needs_header. Qed.
@@ -92,10 +96,11 @@ Proof. exact all_profiles_covered. Qed.
 (* Predecessors over the Referrers API returns exactly the stored manifests whose
    subject is the given descriptor (any registry state, no hypothesis on the history) *)
 Theorem C13_predecessors_reflect :
-  forall (H : str -> str) (subject_of : str -> option (option desc)) (main other : str) (p : profile)
+  forall (H : str -> str) (parse_mt : str -> option str) (subject_of : str -> option (option desc))
+         (main other : str) (user_mts : list str) (limit : N) (index_of : str -> option (list desc)) (p : profile)
          g n rst d,
     p_referrers p = true -> rst <> RSUnsupported ->
-    predecessors main (reg * N) (cexch H subject_of main other p None) (g, n) rst d
+    predecessors H parse_mt main user_mts limit index_of (reg * N) (cexch H subject_of main other p None) (g, n) rst d
     = ((g, n + 1), RSSupported,
        [(req GET main (EReferrers (d_dg d)),
          mkResp 200 (Some mt_index) None None None false None
@@ -103,6 +108,240 @@ Theorem C13_predecessors_reflect :
        RDescs (referrers_of (subj_of subject_of) g (d_dg d))).
 Proof. exact predecessors_reflect. Qed.
 Print Assumptions C13_predecessors_reflect.
+
+(* Registries WITHOUT the Referrers API (referrers tag schema): what updateReferrersIndex writes
+   when a manifest with a subject is pushed is what Predecessors reads back.  In every registry
+   state of the invariant, whether the referrers tag of the subject is absent or points to an
+   index written before: adding referrer r succeeds, leaves the tag pointing to the new index
+   (old referrers, deduplicated, then r; the old index deleted unless SkipReferrersGC; tags have
+   one binding each, as the registry model keeps them) and
+   Predecessors over the tag schema then lists exactly those.  For every profile that answers a
+   tag with a digest header or a Content-Length (the known finding otherwise). *)
+Theorem C13_tag_schema_add_then_listed :
+  forall (H : str -> str) (parse_mt : str -> option str) (subject_of : str -> option (option desc))
+         (main other : str) (user_mts : list str) (limit : N) (skip_gc : bool)
+         (index_of : str -> option (list desc)) (p : profile),
+    (forall c, valid_digest (H c) = true) ->
+    (forall l, subject_of (gen_index l) = Some None) ->
+    parse_mt mt_index = Some mt_index ->
+    forall g n rst subj old r,
+      inv H parse_mt subject_of limit p g ->
+      rst_ok p rst ->
+      valid_digest (d_dg subj) = true ->
+      let tag := ref_tag (d_dg subj) in
+      resolve_ref main tag = Some tag -> valid_digest tag = false ->
+      p_clen p = true \/ p_dighdr p = true ->
+      index_state g tag old -> (match old with Some (_, l0) => index_of (gen_index l0) = Some l0 | None => True end) ->
+      NoDup (map fst (g_tags g)) ->
+      let l := match old with Some (_, l) => l | None => [] end in
+      let upd := clean_refs [] l ++ [r] in
+      existsb (RemoteClient.desc_eqb r) (clean_refs [] l) = false ->
+      len (gen_index upd) <= limit -> index_of (gen_index upd) = Some upd ->
+      skip_gc = true \/ (forall od l0, old = Some (od, l0) -> od <> H (gen_index upd)) ->
+      exists g' n' t,
+        update_referrers_index H parse_mt main user_mts limit skip_gc index_of (reg * N)
+                               (cexch H subject_of main other p None) (g, n) rst subj (RAdd r)
+        = ((g', n'), rst, t, ROk) /\
+        inv H parse_mt subject_of limit p g' /\
+        exists n'' t',
+          tag_schema_referrers H parse_mt main user_mts limit index_of (reg * N)
+                               (cexch H subject_of main other p None) (g', n') subj
+          = ((g', n''), t', RDescs (clean_refs [] upd)).
+Proof. exact tag_schema_add_then_listed. Qed.
+Print Assumptions C13_tag_schema_add_then_listed.
+
+(* ... and what Delete of a manifest with a subject does: the referrer disappears from the
+   listing; when it was the last one the index and its tag are removed (or, with
+   SkipReferrersGC, an empty index stays) *)
+Theorem C13_tag_schema_remove_then_absent :
+  forall (H : str -> str) (parse_mt : str -> option str) (subject_of : str -> option (option desc))
+         (main other : str) (user_mts : list str) (limit : N) (skip_gc : bool)
+         (index_of : str -> option (list desc)) (p : profile),
+    (forall c, valid_digest (H c) = true) ->
+    (forall l, subject_of (gen_index l) = Some None) ->
+    parse_mt mt_index = Some mt_index ->
+    forall g n rst subj od l r,
+      inv H parse_mt subject_of limit p g ->
+      rst_ok p rst ->
+      valid_digest (d_dg subj) = true ->
+      let tag := ref_tag (d_dg subj) in
+      resolve_ref main tag = Some tag -> valid_digest tag = false ->
+      p_clen p = true \/ p_dighdr p = true ->
+      index_state g tag (Some (od, l)) -> index_of (gen_index l) = Some l ->
+      NoDup (map fst (g_tags g)) ->
+      let upd := filter (fun x => negb (RemoteClient.desc_eqb r x)) (clean_refs [] l) in
+      existsb (RemoteClient.desc_eqb r) (clean_refs [] l) = true ->
+      len (gen_index upd) <= limit -> index_of (gen_index upd) = Some upd ->
+      skip_gc = true \/ od <> H (gen_index upd) ->
+      exists g' n' t,
+        update_referrers_index H parse_mt main user_mts limit skip_gc index_of (reg * N)
+                               (cexch H subject_of main other p None) (g, n) rst subj (RRemove r)
+        = ((g', n'), rst, t, ROk) /\
+        inv H parse_mt subject_of limit p g' /\
+        exists n'' t',
+          tag_schema_referrers H parse_mt main user_mts limit index_of (reg * N)
+                               (cexch H subject_of main other p None) (g', n') subj
+          = ((g', n''), t', RDescs (clean_refs [] upd)).
+Proof. exact tag_schema_remove_then_absent. Qed.
+Print Assumptions C13_tag_schema_remove_then_absent.
+
+(* ... lifted to EVERY SEQUENCE of referrer changes of one subject (the index updates of pushes and
+   deletes of manifests with that subject, in any order; [run_changes] = updateReferrersIndex once
+   per change): every update succeeds, the referrers tag afterwards points to what
+   applyReferrerChanges yields step by step ([spec_changes]), and Predecessors lists it.
+   [changes_ok] are the per-step side conditions: the change is effective, the index read
+   decodes, the new index fits MaxMetadataBytes and its digest differs from the old one's
+   (or SkipReferrersGC); satisfiable: C13_tag_schema_changes_satisfiable. *)
+Theorem C13_tag_schema_changes :
+  forall (H : str -> str) (parse_mt : str -> option str) (subject_of : str -> option (option desc))
+         (main other : str) (user_mts : list str) (limit : N) (skip_gc : bool)
+         (index_of : str -> option (list desc)) (p : profile),
+    (forall c, valid_digest (H c) = true) ->
+    (forall l, subject_of (gen_index l) = Some None) ->
+    parse_mt mt_index = Some mt_index ->
+    forall rst subj chs g n st,
+      minv H parse_mt limit g -> rst_ok p rst ->
+      valid_digest (d_dg subj) = true ->
+      let tag := ref_tag (d_dg subj) in
+      resolve_ref main tag = Some tag -> valid_digest tag = false ->
+      p_clen p = true \/ p_dighdr p = true ->
+      index_state g tag st -> NoDup (map fst (g_tags g)) ->
+      changes_ok H limit skip_gc index_of st chs ->
+      exists g' n',
+        run_changes H parse_mt subject_of main other user_mts limit skip_gc index_of p (g, n) rst subj chs
+        = ((g', n'), map (fun _ => ROk) chs) /\
+        minv H parse_mt limit g' /\
+        index_state g' tag (spec_changes H skip_gc st chs) /\
+        NoDup (map fst (g_tags g')) /\
+        (json_ok_st index_of (spec_changes H skip_gc st chs) ->
+         exists n'' t',
+           tag_schema_referrers H parse_mt main user_mts limit index_of (reg * N)
+                                (cexch H subject_of main other p None) (g', n') subj
+           = ((g', n''), t', RDescs (clean_refs [] (ix_list (spec_changes H skip_gc st chs))))).
+Proof. exact tag_schema_changes. Qed.
+Print Assumptions C13_tag_schema_changes.
+
+Example C13_tag_schema_changes_satisfiable :
+  changes_ok w_H w_limit true sat_index_of2 None sat_changes /\
+  spec_changes w_H true None sat_changes = Some (w_H (gen_index [sat_b]), [sat_b]) /\
+  json_ok_st sat_index_of2 (spec_changes w_H true None sat_changes).
+Proof. exact tag_schema_changes_satisfiable. Qed.
+
+(* ... and at the level of the OPERATIONS, in any registry state of a registry WITHOUT the
+   Referrers API (manifests with subjects may already be stored: [minv] is [inv] without the
+   condition on who indexes subjects): Push of an accurate, indexable manifest whose subject is
+   sj succeeds, leaves the client in referrers state "unsupported", the referrers tag points to
+   the regenerated index, the manifest is stored, and Predecessors(sj) then lists the old
+   referrers followed by the pushed descriptor. *)
+Theorem C13_push_subject_then_predecessors :
+  forall (H : str -> str) (parse_mt : str -> option str) (subject_of : str -> option (option desc))
+         (main other : str) (user_mts : list str) (limit : N) (skip_gc : bool)
+         (index_of : str -> option (list desc)) (p : profile),
+    (forall c, valid_digest (H c) = true) ->
+    (forall l, subject_of (gen_index l) = Some None) ->
+    parse_mt mt_index = Some mt_index ->
+    forall g n rst d c sj old,
+      minv H parse_mt limit g -> p_referrers p = false -> rst <> RSSupported ->
+      is_manifest user_mts d = true -> indexable (d_mt d) = true ->
+      len c = d_sz d -> H c = d_dg d -> valid_digest (d_dg d) = true ->
+      parse_mt (d_mt d) = Some (d_mt d) -> len c <= limit ->
+      subject_of c = Some (Some sj) -> valid_digest (d_dg sj) = true ->
+      let tag := ref_tag (d_dg sj) in
+      resolve_ref main tag = Some tag -> valid_digest tag = false ->
+      p_clen p = true \/ p_dighdr p = true ->
+      index_state g tag old -> (match old with Some (_, l0) => index_of (gen_index l0) = Some l0 | None => True end) ->
+      NoDup (map fst (g_tags g)) ->
+      (forall od l0, old = Some (od, l0) -> od <> d_dg d) ->
+      let l := match old with Some (_, l) => l | None => [] end in
+      let upd := clean_refs [] l ++ [d] in
+      existsb (RemoteClient.desc_eqb d) (clean_refs [] l) = false ->
+      len (gen_index upd) <= limit -> index_of (gen_index upd) = Some upd ->
+      skip_gc = true \/ (forall od l0, old = Some (od, l0) -> od <> H (gen_index upd)) ->
+      exists g' n' t,
+        run_op H parse_mt subject_of main other user_mts limit skip_gc index_of (reg * N)
+               (cexch H subject_of main other p None) (g, n) rst (OPush d c)
+        = ((g', n'), RSUnsupported, t, ROk) /\
+        minv H parse_mt limit g' /\
+        index_state g' tag (Some (H (gen_index upd), upd)) /\ NoDup (map fst (g_tags g')) /\
+        (d_dg d <> H (gen_index upd) -> lookup (d_dg d) (g_mans g') = Some (d_mt d, c)) /\
+        exists n'' t',
+          run_op H parse_mt subject_of main other user_mts limit skip_gc index_of (reg * N)
+                 (cexch H subject_of main other p None) (g', n') RSUnsupported (OPreds sj)
+          = ((g', n''), RSUnsupported, t', RDescs (clean_refs [] upd)).
+Proof. exact push_subject_then_predecessors. Qed.
+Print Assumptions C13_push_subject_then_predecessors.
+
+(* ... and Delete of a stored manifest with subject sj (referrers state unknown -- the client then
+   pings the API first -- or "unsupported"): the referrer is taken out of the index, the manifest is deleted,
+   Predecessors(sj) lists the remaining referrers. *)
+Theorem C13_delete_subject_then_predecessors :
+  forall (H : str -> str) (parse_mt : str -> option str) (subject_of : str -> option (option desc))
+         (main other : str) (user_mts : list str) (limit : N) (skip_gc : bool)
+         (index_of : str -> option (list desc)) (p : profile),
+    (forall c, valid_digest (H c) = true) ->
+    (forall l, subject_of (gen_index l) = Some None) ->
+    parse_mt mt_index = Some mt_index ->
+    forall g n rst d c sj od l,
+      minv H parse_mt limit g -> p_referrers p = false -> rst <> RSSupported ->
+      is_manifest user_mts d = true -> indexable_del (d_mt d) = true ->
+      lookup (d_dg d) (g_mans g) = Some (d_mt d, c) -> len c = d_sz d -> valid_digest (d_dg d) = true ->
+      subject_of c = Some (Some sj) -> valid_digest (d_dg sj) = true ->
+      let tag := ref_tag (d_dg sj) in
+      resolve_ref main tag = Some tag -> valid_digest tag = false ->
+      p_clen p = true \/ p_dighdr p = true ->
+      index_state g tag (Some (od, l)) -> index_of (gen_index l) = Some l ->
+      NoDup (map fst (g_tags g)) ->
+      od <> d_dg d ->
+      let upd := filter (fun x => negb (RemoteClient.desc_eqb d x)) (clean_refs [] l) in
+      existsb (RemoteClient.desc_eqb d) (clean_refs [] l) = true ->
+      len (gen_index upd) <= limit -> index_of (gen_index upd) = Some upd ->
+      H (gen_index upd) <> d_dg d ->
+      skip_gc = true \/ od <> H (gen_index upd) ->
+      exists g' n' t,
+        run_op H parse_mt subject_of main other user_mts limit skip_gc index_of (reg * N)
+               (cexch H subject_of main other p None) (g, n) rst (ODelete d)
+        = ((g', n'), RSUnsupported, t, ROk) /\
+        minv H parse_mt limit g' /\ lookup (d_dg d) (g_mans g') = None /\
+        index_state g' tag (if is_nil upd && negb skip_gc then None else Some (H (gen_index upd), upd)) /\
+        NoDup (map fst (g_tags g')) /\
+        exists n'' t',
+          run_op H parse_mt subject_of main other user_mts limit skip_gc index_of (reg * N)
+                 (cexch H subject_of main other p None) (g', n') RSUnsupported (OPreds sj)
+          = ((g', n''), RSUnsupported, t', RDescs (clean_refs [] upd)).
+Proof. exact delete_subject_then_predecessors. Qed.
+Print Assumptions C13_delete_subject_then_predecessors.
+
+(* the hypotheses of C13_push_subject_then_predecessors are satisfiable: instantiated on the empty
+   registry without the API (every hypothesis discharged by computation) *)
+Example C13_push_subject_satisfiable :
+  exists g' n' t,
+    run_op w_H (fun s => Some s) sat_subject (b "app") (b "src") [] w_limit false sat_index_of (reg * N)
+           (cexch w_H sat_subject (b "app") (b "src") ts_profile None) (reg0 [], 0) RSUnknown (OPush sat_d sat_c)
+    = ((g', n'), RSUnsupported, t, ROk) /\
+    minv w_H (fun s => Some s) w_limit g' /\
+    index_state g' (ref_tag zero_digest) (Some (w_H (gen_index [sat_d]), [sat_d])) /\
+    exists n'' t',
+      run_op w_H (fun s => Some s) sat_subject (b "app") (b "src") [] w_limit false sat_index_of (reg * N)
+             (cexch w_H sat_subject (b "app") (b "src") ts_profile None) (g', n') RSUnsupported (OPreds sat_sj)
+      = ((g', n''), RSUnsupported, t', RDescs [sat_d]).
+Proof. exact push_subject_satisfiable. Qed.
+
+(* (JSON decoding is the parameter index_of: the theorems above ask it to invert gen_index on the two
+   indexes involved -- the one read and the one written --, not on all lists: gen_index does not
+   escape, a hypothesis for ALL descriptor lists would be unsatisfiable.  The Example below
+   instantiates it.) *)
+(* ... end to end on a concrete registry without the API: Push of a manifest with a subject makes
+   Predecessors list it and the referrers tag resolve to the generated index (the JSON the
+   client writes is the last conjunct); Delete removes both again *)
+Example C13_tag_schema_example :
+  map snd (snd (run_history toy_H (fun s => Some s) ts_subject (b "app") (b "src") [] w_limit false ts_index_of
+                            ts_profile None [] RSUnknown ts_ops))
+  = [ROk; RDescs []; ROk; RDescs [ts_d1];
+     RDesc (mkDesc mt_index (toy_H (gen_index [ts_d1])) (len (gen_index [ts_d1])));
+     ROk; RDescs []; RErr ENotFound] /\
+  ts_index_of (gen_index [ts_d1]) = Some [ts_d1] /\ ts_subject (gen_index [ts_d1]) = Some None /\
+  gen_index [ts_d1] = b "{""schemaVersion"":2,""mediaType"":""application/vnd.oci.image.index.v1+json"",""manifests"":[{""mediaType"":""application/vnd.oci.image.manifest.v1+json"",""digest"":""sha256:7d317b0000000000000000000000000000000000000000000000000000000000"",""size"":3}]}".
+Proof. exact tag_schema_example. Qed.
 
 (* Composition with C15 (Model/Paging.v): in every state the registry model reaches from
    the empty registry by any request sequence the manifest digests are distinct and
@@ -116,6 +355,12 @@ Theorem C13_registry_digests_distinct :
     forall ob qs, keys_ok (fold_left (fun g q => fst (handle H sj main other p g q)) qs (reg0 ob)).
 Proof. exact reachable_keys_ok. Qed.
 Print Assumptions C13_registry_digests_distinct.
+
+Theorem C13_registry_tags_unique :
+  forall (H : str -> str) (sj : str -> option desc) (main other : str) (p : profile) ob qs,
+    NoDup (map fst (g_tags (fold_left (fun g q => fst (handle H sj main other p g q)) qs (reg0 ob)))).
+Proof. exact reachable_tags_unique. Qed.
+Print Assumptions C13_registry_tags_unique.
 
 Theorem C13_referrers_paged :
   forall (sj : str -> option desc) (atype : str -> str) g dg (cap : nat) (ds : nat -> P.decision)
@@ -179,13 +424,15 @@ Proof. exact refines_store_nonvacuous. Qed.
    the Location of a POST answer, when present, is an upload session. *)
 Theorem C13_requests_allowed :
   forall (H : str -> str) (parse_mt : str -> option str) (subject_of : str -> option (option desc))
-         (main other : str) (user_mts : list str) (limit : N)
+         (main other : str) (user_mts : list str) (limit : N) (skip_gc : bool)
+         (index_of : str -> option (list desc))
          (srv : Type) (exch : srv -> request -> srv * response),
     valid_repository main = true -> valid_repository other = true ->
     loc_ok srv exch ->
+    (forall c, valid_digest (H c) = true) ->
     forall os s rst s' rst' out,
       Forall op_ok os ->
-      run_ops H parse_mt subject_of main other user_mts limit srv exch s rst os = (s', rst', out) ->
+      run_ops H parse_mt subject_of main other user_mts limit skip_gc index_of srv exch s rst os = (s', rst', out) ->
       Forall (fun tr => Forall (fun qr => allowed (fst qr) = true) (fst tr)) out.
 Proof. exact run_ops_allowed. Qed.
 Print Assumptions C13_requests_allowed.
@@ -194,11 +441,13 @@ Print Assumptions C13_requests_allowed.
    field except the status: every request of every history is allowed *)
 Theorem C13_requests_allowed_registry :
   forall (H : str -> str) (parse_mt : str -> option str) (subject_of : str -> option (option desc))
-         (main other : str) (user_mts : list str) (limit : N) (p : profile) (kor : option (N * corruption))
+         (main other : str) (user_mts : list str) (limit : N) (skip_gc : bool)
+         (index_of : str -> option (list desc)) (p : profile) (kor : option (N * corruption))
          other_blobs rst os g out,
     valid_repository main = true -> valid_repository other = true ->
+    (forall c, valid_digest (H c) = true) ->
     no_status_corruption kor -> Forall op_ok os ->
-    run_history H parse_mt subject_of main other user_mts limit p kor other_blobs rst os = (g, out) ->
+    run_history H parse_mt subject_of main other user_mts limit skip_gc index_of p kor other_blobs rst os = (g, out) ->
     Forall (fun tr => Forall (fun qr => allowed (fst qr) = true) (fst tr)) out.
 Proof. exact run_history_allowed. Qed.
 Print Assumptions C13_requests_allowed_registry.
@@ -295,6 +544,34 @@ Theorem C13_corruption_rejected_fetch_reference :
 Proof. exact man_fetchref_consistent. Qed.
 Print Assumptions C13_corruption_rejected_fetch_reference.
 
+(* the referrers tag schema (registries without the Referrers API): the referrers index read
+   through the referrers tag is used -- by Referrers/Predecessors and by the index update on
+   push/delete of a manifest with a subject -- only if the body received is exactly what the
+   descriptor derived from the SAME response says (length = Content-Length, digest = the digest
+   header or the computed one) and decodes; whatever the server answers *)
+Theorem C13_corruption_rejected_referrers_index :
+  forall (H : str -> str) (parse_mt : str -> option str) (main : str) (user_mts : list str) (limit : N)
+         (index_of : str -> option (list desc))
+         (srv : Type) (exch : srv -> request -> srv * response) s tag s' t d l,
+    referrers_from_index H parse_mt main user_mts limit index_of srv exch s tag = (s', t, ROk, Some (d, l)) ->
+    exists body,
+      man_fetchref H parse_mt main user_mts limit srv exch s tag = (s', t, RDescBytes d body) /\
+      len body = d_sz d /\ H body = d_dg d /\ d_sz d <= limit /\ index_of body = Some l.
+Proof. exact referrers_index_consistent. Qed.
+Print Assumptions C13_corruption_rejected_referrers_index.
+
+Theorem C13_corruption_rejected_tag_schema_referrers :
+  forall (H : str -> str) (parse_mt : str -> option str) (main : str) (user_mts : list str) (limit : N)
+         (index_of : str -> option (list desc))
+         (srv : Type) (exch : srv -> request -> srv * response) s d s' t l,
+    tag_schema_referrers H parse_mt main user_mts limit index_of srv exch s d = (s', t, RDescs l) ->
+    l = [] \/
+    exists id body idx,
+      man_fetchref H parse_mt main user_mts limit srv exch s (ref_tag (d_dg d)) = (s', t, RDescBytes id body) /\
+      len body = d_sz id /\ H body = d_dg id /\ index_of body = Some idx /\ l = clean_refs [] idx.
+Proof. exact tag_schema_consistent. Qed.
+Print Assumptions C13_corruption_rejected_tag_schema_referrers.
+
 (* blob FetchReference: also when the GET has no Content-Length (descriptor from a HEAD), the
    digest header of the GET, whose body is returned, must not contradict the digest asked for *)
 Theorem C13_corruption_rejected_blob_fetch_reference :
@@ -350,6 +627,33 @@ Theorem C13_corruption_rejected_mount :
        (r_status r = 202 /\ rest <> [] /\ r_loc r <> None)).
 Proof. exact blob_mount_consistent. Qed.
 Print Assumptions C13_corruption_rejected_mount.
+
+(* ------------------------------------------------------------------ *)
+(* URL construction (url.go; [request_url] is compared with the URL of every real request):
+   composition of the request grammar with C20_url_exact.  For every request of the grammar
+   (C13_requests_allowed: all the client emits), against a registry name net/url accepts
+   ([reg_clean], C20's single fact about net/url), the URL is -- under RFC 3986 splitting --
+   scheme://host/v2/<repository>/{manifests|blobs|referrers}/<reference> with exactly these path
+   segments, no user info, no query, no fragment (the referrers page-size extension ?n= aside);
+   the upload POST without mount goes to /v2/<repository>/blobs/uploads/ . *)
+Theorem C13_request_url_exact :
+  forall (vr : str -> bool) plain host page q,
+    (forall reg, vr reg = true -> reg_clean reg = true) ->
+    vr host = true -> contains c_slash host = false ->
+    allowed q = true ->
+    match q_ep q with
+    | EManifest r => url_is (request_url plain host page q) plain (mkRef host (q_repo q) r) (b "manifests")
+    | EBlob d => url_is (request_url plain host page q) plain (mkRef host (q_repo q) d) (b "blobs")
+    | EReferrers d =>
+        page = 0 -> url_is (request_url plain host page q) plain (mkRef host (q_repo q) d) (b "referrers")
+    | EUploads =>
+        q_mount q = None ->
+        url_split (request_url plain host page q)
+        = Some (mkParts (scheme plain) (host_of host) (b "/v2/" ++ q_repo q ++ b "/blobs/uploads/") None None)
+    | ESession _ => True
+    end.
+Proof. exact request_url_exact. Qed.
+Print Assumptions C13_request_url_exact.
 
 (* ------------------------------------------------------------------ *)
 (* Step 2 of the two-step upload (Model/Location.v, completePushAfterInitialPost): the PUT
@@ -444,6 +748,16 @@ Theorem C13_corruption_rejected_seek :
     t0 = t /\ r_status r = 206 /\ len_consistent r (k_size k - t) /\ k_rc k1 = r_body r /\ k_off k1 = t.
 Proof. exact seek_accepts_consistent. Qed.
 Print Assumptions C13_corruption_rejected_seek.
+
+(* known finding seek-206-digest-unverified: a 206 whose well-formed digest header names other
+   content is accepted (witness; the full "digest header contradicts -> fail" is false for Seek) *)
+Theorem C13_corruption_rejected_seek_digest_refuted :
+  let '(k1, rq, out) := rsc_step (fun _ => mkBm 0 false) w_seek_srv (rsc_open (b "hello world") 11) (SSeek 6 SeekStart) in
+  out = SPos 6 /\ rq = [(6, 10)] /\ k_rc k1 = b "world" /\
+  r_dig (w_seek_srv 0%nat 6 10) = Some w_seek_other /\ valid_digest w_seek_other = true /\
+  str_eqb w_seek_other w_seek_digest = false.
+Proof. exact seek_206_digest_unverified_refuted. Qed.
+Print Assumptions C13_corruption_rejected_seek_digest_refuted.
 
 (* the readers C13_seek speaks of are the ones the client hands out: in every capability
    profile (also ranges without Content-Length on the GET, where the descriptor comes from a
